@@ -43,38 +43,142 @@ def parseViews (s : String) : Option (List (Nat × Bool)) :=
     | [n, "u"] => n.toNat?.map (·, false)
     | _ => none
 
-def parseCfg : List String → Option MCfg
-  | ["cfg", rs, vs] => do
-    let temps ← (rs.splitOn ",").mapM tempOf
-    let views ← parseViews vs
-    if temps.length = 0 ∨ temps.length > 4 ∨ views.length > 4 then none else
-    if views.any (fun v => v.1 ≥ 8) then none else
-    pure ⟨temps, views⟩
+/-- a reader of the case line: `D` / `C` (one temporality for every instrument type), `P` (delta for Counter, cumulative
+    for UpDownCounter) / `Q` (the other way round): a temporality selector by instrument type; an optional `~m`: the reader
+    was added together with a `MetricFilter` (mode m = 0..2) -/
+structure RSpec where
+  mode : Char
+  flt : Option Nat
+
+def rspecOf (s : String) : Option RSpec :=
+  match s.toList with
+  | [c] => if c = 'D' ∨ c = 'C' ∨ c = 'P' ∨ c = 'Q' then some ⟨c, none⟩ else none
+  | [c, '~', d] =>
+    if (c = 'D' ∨ c = 'C' ∨ c = 'P' ∨ c = 'Q') ∧ (d = '0' ∨ d = '1' ∨ d = '2') then some ⟨c, some (d.toNat - 48)⟩ else none
   | _ => none
+
+/-- `GetAggregationTemporality(instrument type)` of the reader -/
+def RSpec.temp (r : RSpec) (mono : Bool) : Temporality :=
+  if r.mode = 'D' then .delta else if r.mode = 'C' then .cumulative
+  else if r.mode = 'P' then (if mono then .delta else .cumulative)
+  else (if mono then .cumulative else .delta)
+
+/-- the configuration of the case: the storages of one instrument type see the readers' temporalities for that type, so the
+    model is instantiated once per instrument type (`mcM` for Counter streams, `mcU` for UpDownCounter streams) -/
+structure DCfg where
+  readers : List RSpec
+  views : List (Nat × Bool)
+
+def DCfg.mc (c : DCfg) (mono : Bool) : MCfg := ⟨c.readers.map (·.temp mono), c.views⟩
+def DCfg.split (c : DCfg) : Bool := c.readers.any fun r => r.mode = 'P' || r.mode = 'Q'
+
+def parseCfg : List String → Option DCfg
+  | ["cfg", rs, vs] => do
+    let readers ← (rs.splitOn ",").mapM rspecOf
+    let views ← parseViews vs
+    if readers.length = 0 ∨ readers.length > 4 ∨ views.length > 4 then none else
+    if views.any (fun v => v.1 ≥ 8) then none else
+    pure ⟨readers, views⟩
+  | _ => none
+
+/-- last digit of the exported stream name: `v<g>` for the j-th matching view (g its position among all views), `i<name>`
+    for the default view -/
+def streamDigit (c : DCfg) (k : StreamKey) : Nat :=
+  let idx := (List.range c.views.length).filter fun g =>
+    match c.views[g]? with
+    | some v => v.1 == k.name && v.2 == k.kind.mono
+    | none => false
+  match idx[k.view]? with
+  | some g => g % 10
+  | none => k.name % 10
+
+/-- `MetricCollector::Produce` with a `MetricFilter`: applied to what `Meter::Collect` returned (the storages have
+    already moved on): accept / drop the stream / keep the accepted attribute sets and drop the stream when none is left -/
+def applyFilter (c : DCfg) (r : Nat) (k : StreamKey) (o : Option MetricData) : Option MetricData :=
+  match (c.readers[r]?).bind (·.flt), o with
+  | some m, some md =>
+    let x := (streamDigit c k + m) % 3
+    if x = 0 then some md
+    else if x = 1 then none
+    else
+      let pts := md.points.filter fun p => (p.1 + m) % 2 == 0
+      if pts.isEmpty then none else some { md with points := pts }
+  | _, o => o
 
 def valueOk (k : Kind) (v : Int) : Bool := if k.dbl then v.natAbs ≤ 1048576 else v.natAbs ≤ 1099511627776
 
+/-- the two instances of the model (Counter streams / UpDownCounter streams); they are the same when no reader selects its
+    temporality by instrument type -/
+abbrev MM := Meter × Meter
+
+def pick (mm : MM) (mono : Bool) : Meter := if mono then mm.1 else mm.2
+def both (c : DCfg) (mm : MM) (f : MCfg → Meter → Meter) : MM :=
+  let a := f (c.mc true) mm.1
+  (a, if c.split then f (c.mc false) mm.2 else a)
+
+/-- collection by reader r on both instances; the output for a stream is taken from the instance of its instrument type -/
+def collectBoth (c : DCfg) (mm : MM) (r : Nat) : MM × (StreamKey → Option MetricData) :=
+  let ra := mcollect (c.mc true) mm.1 r
+  let rb := if c.split then mcollect (c.mc false) mm.2 r else ra
+  ((ra.1, rb.1), fun k => applyFilter c r k (if k.kind.mono then ra.2 k else rb.2 k))
+
+/-- the provider's two meters: "m" (the views select it) and "n" (no view matches: `cfgN`), each with its instance pair; a handle
+    of the case is (on meter n?, index among that meter's handles).  Every collection collects both meters with the same stamp. -/
+structure St where
+  a : MM
+  b : MM
+  hs : List (Bool × Nat)
+
+def cfgN (c : DCfg) : DCfg := { c with views := [] }
+
+def St.addTo (c : DCfg) (st : St) (h a : Nat) (v : Int) : St :=
+  match st.hs[h]? with
+  | some (false, l) => { st with a := both c st.a (fun _ m => madd m l a v) }
+  | some (true, l) => { st with b := both (cfgN c) st.b (fun _ m => madd m l a v) }
+  | none => st
+
+def St.kindOfHandle (st : St) (h : Nat) : Option Kind :=
+  match st.hs[h]? with
+  | some (false, l) => (st.a.1.handles[l]?).map (·.1)
+  | some (true, l) => (st.b.1.handles[l]?).map (·.1)
+  | none => none
+
+/-- collection by reader r: (new state, outputs per labelled stream) -/
+def St.collect (c : DCfg) (st : St) (r : Nat) : St × List (String × Bool × MetricData) :=
+  let ra := collectBoth c st.a r
+  let rb := collectBoth (cfgN c) st.b r
+  let outA := st.a.1.keys.filterMap fun k => (ra.2 k).map fun md => (label k, k.kind.mono, md)
+  let outB := st.b.1.keys.filterMap fun k => (rb.2 k).map fun md => ("n:" ++ label k, k.kind.mono, md)
+  ({ st with a := ra.1, b := rb.1 }, outA ++ outB)
+
 /-- one op: new state and its observation, `none` = malformed -/
-def stepOp (mc : MCfg) (m : Meter) : List String → Option (Meter × String)
+def stepOp (c : DCfg) (st : St) : List String → Option (St × String)
   | ["create", n, k] => do
     let n ← n.toNat?
     let k ← kindOf k
     if n ≥ 8 then none else
-    let m' := mcreate mc m n k
-    pure (m', s!"h{m.handles.length}")
+    pure ({ st with a := both c st.a (fun mc m => mcreate mc m n k), hs := st.hs ++ [(false, st.a.1.handles.length)] }, s!"h{st.hs.length}")
+  | ["create", n, k, "n"] => do
+    let n ← n.toNat?
+    let k ← kindOf k
+    if n ≥ 8 then none else
+    pure ({ st with b := both (cfgN c) st.b (fun mc m => mcreate mc m n k), hs := st.hs ++ [(true, st.b.1.handles.length)] }, s!"h{st.hs.length}")
   | ["add", h, a, v] => do
     let h ← h.toNat?
     let a ← a.toNat?
     let v ← v.toInt?
-    let hk ← m.handles[h]?
-    if a ≥ 16 ∨ !valueOk hk.1 v then none else
-    pure (madd m h a v, "ok")
+    let hk ← st.kindOfHandle h
+    if a ≥ 16 ∨ !valueOk hk v then none else
+    pure (st.addTo c h a v, "ok")
   | ["collect", r] => do
     let r ← r.toNat?
-    if r ≥ mc.temps.length then none else
-    let res := mcollect mc m r
-    let mds := m.keys.filterMap fun k => (res.2 k).map fun md => showMD (label k) md
+    if r ≥ c.readers.length then none else
+    let res := st.collect c r
+    let mds := res.2.map fun o => showMD o.1 o.2.2
     pure (res.1, "[" ++ " | ".intercalate (sortBy (fun (a b : String) => a < b) mds) ++ "]")
+  -- `MeterProvider::ForceFlush` / `Shutdown`: the readers are told; no measurement is consumed and collections go on
+  | ["flush"] => pure (st, "ok")
+  | ["shutdown"] => pure (st, "ok")
   | ["race", h, t, n, r, k] => do
     -- the real-thread run of the harness; by `sched_conservation` / `sched_no_lost_update` its schedule-independent
     -- summary is what the sequential run "collect r ; all the adds ; collect r" yields
@@ -83,31 +187,35 @@ def stepOp (mc : MCfg) (m : Meter) : List String → Option (Meter × String)
     let n ← n.toNat?
     let r ← r.toNat?
     let k ← k.toNat?
-    let _ ← m.handles[h]?
-    if t < 1 ∨ t > 4 ∨ n > 5000 ∨ r ≥ mc.temps.length ∨ k < 1 ∨ k > 64 then none else
-    let isDelta := mc.cfg.temp r = .delta
-    let c1 := mcollect mc m r
-    let m1 := (List.range t).foldl (fun m th => (List.range n).foldl (fun m _ => madd m h (th % 3 + 1) 1) m) c1.1
-    let m2 := madd m1 h 1 1
-    let m3 := { m2 with collects := m2.collects + (k - 1) }
-    let c2 := mcollect mc m3 r
-    let parts := m3.keys.filterMap fun key =>
-      match c1.2 key, c2.2 key with
+    let _ ← st.kindOfHandle h
+    if t < 1 ∨ t > 4 ∨ n > 5000 ∨ r ≥ c.readers.length ∨ k < 1 ∨ k > 64 then none else
+    let rs := c.readers.getD r ⟨'C', none⟩
+    let c1 := st.collect c r
+    let s1 := (List.range t).foldl (fun st th => (List.range n).foldl (fun st _ => st.addTo c h (th % 3 + 1) 1) st) c1.1
+    let s2 := s1.addTo c h 1 1
+    let bump : MCfg → Meter → Meter := fun _ m => { m with collects := m.collects + (k - 1) }
+    let s3 := { s2 with a := both c s2.a bump, b := both (cfgN c) s2.b bump }
+    let c2 := s3.collect c r
+    let labels := (s3.a.1.keys.map fun key => (label key, key.kind.mono)) ++ (s3.b.1.keys.map fun key => ("n:" ++ label key, key.kind.mono))
+    let parts := labels.filterMap fun lk =>
+      let o1 := (c1.2.find? (·.1 == lk.1)).map (·.2.2)
+      let o2 := (c2.2.find? (·.1 == lk.1)).map (·.2.2)
+      match o1, o2 with
       | none, none => none
       | o1, o2 =>
         let p1 := (o1.map (·.points)).getD []
         let p2 := (o2.map (·.points)).getD []
-        let pts := if isDelta then Otel.Temporal.mergeInto p1 p2 else (if o2.isSome then p2 else p1)
-        some (label key ++ " " ++ showPoints pts)
+        let pts := if rs.temp lk.2 = .delta then Otel.Temporal.mergeInto p1 p2 else (if o2.isSome then p2 else p1)
+        some (lk.1 ++ " " ++ showPoints pts)
     pure (c2.1, "race [" ++ " | ".intercalate (sortBy (fun (a b : String) => a < b) parts) ++ "]")
   | _ => none
 
-def run (mc : MCfg) : Meter → List (List String) → List String → Option (List String)
+def run (c : DCfg) : St → List (List String) → List String → Option (List String)
   | _, [], acc => some acc.reverse
   | m, op :: ops, acc =>
-    match stepOp mc m op with
+    match stepOp c m op with
     | none => none
-    | some (m', o) => run mc m' ops (o :: acc)
+    | some (m', o) => run c m' ops (o :: acc)
 
 def handle (toks : List String) : String :=
   match splitOps toks with
@@ -115,7 +223,7 @@ def handle (toks : List String) : String :=
     match parseCfg cfgOp with
     | none => "bad-op"
     | some mc =>
-      match run mc Meter.init ops ["ok"] with
+      match run mc ⟨(Meter.init, Meter.init), (Meter.init, Meter.init), []⟩ ops ["ok"] with
       | none => "bad-op"
       | some outs => " ; ".intercalate outs
   | [] => "bad-op"
